@@ -28,6 +28,8 @@ func init() {
 		"(*sync.WaitGroup).Wait":   nop,
 		"(*sync.Pool).Put":         nop,
 		"(*sync.Pool).Get":         poolGet,
+		// the file-system models never return a wrapped os.ErrNotExist (package os is not initialised in the engine)
+		"os.IsNotExist": func(e *Engine, st *State, th *Thread, fn *ssa.Function, args []Val) Val { return BoolV{e.tb.ff} },
 		"sync/atomic.StoreUint32":  atomicStore,
 		"sync/atomic.StoreInt32":   atomicStore,
 		"sync/atomic.StoreUint64":  atomicStore,
